@@ -455,7 +455,10 @@ def main(argv):
     seq_model = {"programs": 0, "agree": 0, "mismatch": 0, "unmodelled": 0, "rejected_by_translator": 0,
                  "law_checked_on_model": 0, "law_failures_on_model": 0, "per_class_agree": {}}
     try:
-        stride = 1                                   # every pair, in both tiers (about 6 ms per program)
+        stride = max(1, len(seq) // 10000)           # every pair in quick (about 6 ms per program); thorough: ~10000 pairs
+        n_tpl = sum(len(v_) for v_ in SEQ_CTX.values())
+        while stride > 1 and any(stride % q_ == 0 and n_tpl % q_ == 0 for q_ in range(2, n_tpl + 1)):
+            stride += 1                              # coprime with the number of templates: every template is visited
         sel_k = list(range(0, len(seq), stride))
         sel_p, sel_o = [], []
         for k in sel_k:
@@ -688,6 +691,7 @@ def main(argv):
                                                   "builtins_named": sorted({w for e9 in TF_EXPRS for w in re.findall(r"[a-z_]+(?=\()", e9)})}}
     res.coverage["evaluations"] = n_prog * (nproc + 1) + len(flat) + 2 * cli_n + len(nb_progs)
     res.coverage["evaluations"] += len(tf_progs)
+    res.coverage["evaluations"] += len(fr_progs)
     res.coverage["distinct_nontrivial"] = len({r for r in runs[0] if "OK:" in r}) + let_checked
     res.coverage["rule"] = ("generated well-scoped programs (typed generator, scope tracking) each run in %d separate "
                             "processes + once more after unrelated evaluations in the same process + the model; %d "
@@ -696,6 +700,7 @@ def main(argv):
                             "with a successful statement + abstraction pairs actually compared" % (nproc, n_let, len(HOLES)))
     res.coverage["samples"] = [{"program": pairs[i][0], "variant": pairs[i][1]} for i in (0, 1, 2)]
     res.coverage["traces_validated_against_impl"] = agree
+    res.coverage["traces_validated_against_impl_let_seq"] = seq_model["agree"] + fr_stream["model_agree"]
     # F52 once fixed: its witness stays a regression input; a reappearance is a violation
     if not f52_open:
         w52 = "fs = [x => x + y]\ny = 5\nt1 = [fs[0](1), do { y = fs[0]; return 0 }]\nt2 = [fs[0](1), do { y = fs[0]; return 0 }]"
